@@ -73,6 +73,12 @@ def classify(M, cls, op):
         return "ok"
     if name == "remove_bond":
         return "ok" if frozenset(a[:2]) in B and a[0] != a[1] else "must-raise"
+    if name == "bonds_from_bond_order_matrix":
+        mat, thr = a[0], a[1]
+        n = len(A)
+        if set(A) != set(range(n)) or len(mat) != n or any(len(r) != n for r in mat):
+            return "skip"  # the method addresses atoms as 0..n-1; anything else is not generated
+        return "must-raise" if any(mat[i][i] > thr for i in range(n)) else "ok"
     if name == "set_atom_attribute":
         x, k, v = a
         if x not in A:
@@ -185,6 +191,14 @@ def apply_model(M, cls, op):
         B[frozenset((x, y))] = attrs
     elif name == "remove_bond":
         del B[frozenset(a[:2])]
+    elif name == "bonds_from_bond_order_matrix":
+        # a pair is bonded when either entry exceeds the threshold (add_bond per entry, row by row)
+        mat, thr, inc = a
+        for i in range(len(mat)):
+            for j in range(len(mat)):
+                if mat[i][j] > thr:
+                    attrs = {"bond_order": mat[i][j]} if inc else {}
+                    B[frozenset((i, j))] = attrs
     elif name == "set_atom_attribute":
         x, k, v = a
         A[x][k] = ELEMENTS[v] if k == "atom_type" else v
@@ -261,6 +275,10 @@ def apply_real(g, op):
             r = getattr(g, name)(a[0], None if a[1] is None else Change[a[1]])
         elif name == "relabel_atoms":
             r = g.relabel_atoms({k: v for k, v in a[0]}, copy=False)
+        elif name == "bonds_from_bond_order_matrix":
+            import numpy as np
+
+            r = g.bonds_from_bond_order_matrix(np.array(a[0]), threshold=a[1], include_bond_order=a[2])
         elif name in ("set_atom_attribute", "set_bond_attribute"):
             r = getattr(g, name)(*a[:-1], to_real_value(a[-1]))
         else:
